@@ -193,3 +193,11 @@ def run(repo: Repo, rep: Report, tier: str) -> None:
     from .c10 import lookup_order_rule
 
     lookup_order_rule(repo, rep, "C07.R8")
+    from .c05 import codec_fold_rule
+
+    codec_fold_rule(repo, rep, "C07.R9", slots=("_read_array", "_read_0", "_write_array", "_write_0"))
+    from .c02 import default_substitution_rule
+
+    default_substitution_rule(repo, rep, "C07.R10")
+
+
